@@ -372,12 +372,40 @@ def r4_in_force(ctx):
     ctx.check(ok, "C04.R4", g, ifs[0] if ifs else g.node, "memory-less rule selected iff burn_in and such a rule exists", "selection of the memory-less rule changed", construct="rule selection")
 
 
+def r5_std_from_variance(ctx):
+    """Both the noise and the dispersion updates end in compute_std_from_variance: the closed form needs it to be the plain square root -
+    a variance that is too small is refused (convergence error), never replaced by another number."""
+    ctx.rule("C04.R5", "compute_std_from_variance = sqrt(variance), a too small variance being refused (every definition of it)", 2)
+    from ..astq import Canon
+    seen = 0
+    for modname, m in sorted(ctx.ix.mods.items()):
+        for node in m.tree.body:
+            if not (isinstance(node, ast.FunctionDef) and node.name == "compute_std_from_variance"):
+                continue
+            seen += 1
+            cn = Canon(node)
+            where = (modname, "compute_std_from_variance")
+            rets = [cn.text(r.value, inline=True) for r in statements(node) if isinstance(r, ast.Return) and r.value is not None]
+            ok = bool(rets) and all(r in ("$0.sqrt()", "torch.sqrt($0)", "$0 ** 0.5", "$0 ** (1 / 2)") for r in rets)
+            rebinds = [st for st in statements(node) if isinstance(st, (ast.Assign, ast.AugAssign)) and any(isinstance(t, ast.Name) and t.id == node.args.args[0].arg for t in store_targets(st))]
+            if rebinds:
+                ctx.violation("C04.R5", where, rebinds[0], f"`{U(rebinds[0])[:70]}` replaces the variance before the square root (floor / clamp): the updated standard deviation is then a constant, "
+                              "not the closed-form RMS residual / dispersion")
+            else:
+                ctx.check(ok, "C04.R5", where, node, "returns the square root of the variance it was given", f"compute_std_from_variance returns {rets}, not the square root of the variance", construct="sqrt(variance)")
+            raises = [r for r in statements(node) if isinstance(r, ast.Raise)]
+            ctx.check(bool(raises), "C04.R5", where, node, "a collapsed variance is refused", "a collapsed variance is no longer refused", construct="collapse refused")
+    if seen == 0:
+        raise AnalysisError("C04.R5", "anchor vanished: compute_std_from_variance")
+
+
 def rules(ctx):
     r1_two_phase(ctx)
     r2_tables(ctx)
     r2b_dispersion_formula(ctx)
     r3_noise(ctx)
     r4_in_force(ctx)
+    r5_std_from_variance(ctx)
     ctx.trust("torch.mean/std semantics; linearity of masked sums; summaries of leaspy.utils.weighted_tensor helpers (their source is checked by C06.R1)")
     ctx.assume("weights of data variables are 0/1 masks")
 
